@@ -1421,9 +1421,84 @@ func c04W(streams ...[]c04Chunk) *c04World {
 func c04C(data string) c04Chunk { return c04Chunk{0, []byte(data)} }
 func c04S(data string) c04Chunk { return c04Chunk{1, []byte(data)} }
 
+// c04WConv builds a one-stream world with a raw payload and one cached converter output.
+func c04WConv(raw, conv []c04Chunk) *c04World {
+	return &c04World{Convs: []string{"ka"}, Streams: []*c04Stream{{ID: 0, Raw: raw, Conv: map[string][]c04Chunk{"ka": conv}}}}
+}
+
+type c04FixedCase struct {
+	w     *c04World
+	query string
+}
+
+// TestVerifC04Fixed: reproducers of the C04 findings (open: KNOWN-FINDING probes, fixed: regression cases).
+func c04FixedCases() map[string][]c04FixedCase {
+	one := func(chunks ...c04Chunk) *c04World { return c04W(chunks) }
+	return map[string][]c04FixedCase{
+		c04FindReanchor: {
+			// fixed-length window: "abc" is searched anywhere and the expression then runs on the window alone
+			{one(c04C("xabc")), `cdata:"^abc"`},
+			{one(c04C("xabc")), `cdata:"\Aabc"`},
+			// suffix cut: the buffer ends after the last "a"
+			{one(c04S("ab")), `sdata:"a$"`},
+			{one(c04S("ab")), `-sdata:"a\z"`},
+			// word boundaries see the cut as the text boundary
+			{one(c04C("xfoo")), `cdata:"\bfoo"`},
+			{one(c04C("foox")), `cdata:"foo\b"`},
+			{one(c04C("afoo")), `cdata:"\Bfoo"`},
+			// a failed search leaves the offset at the end of the data; the element is searched again on the empty rest
+			{one(c04C("aaa")), `sdata:"b*" then cdata:"^c*\z"`},
+			{one(c04C("ab")), `cdata:"a" then cdata:"^$"`},
+			// controls
+			{one(c04C("abc")), `cdata:"^abc"`},
+			{one(c04S("ba")), `sdata:"a$"`},
+			{one(c04C("x foo")), `cdata:"\bfoo"`},
+		},
+		c04FindUnmatchedGroup: {
+			{one(c04C("b")), `cdata:"(?P<v>a)?b"`},
+			{one(c04C("b"), c04C("cd")), `cdata:"(?P<v>a)?b" then cdata:"c@v@d"`},
+			{one(c04C("xb")), `cdata:"(?:(?P<v>a)|x)b"`},
+			{one(c04C("ab")), `cdata:"(?P<v>a)?b"`},
+		},
+		c04FindPrefixLeak: {
+			// whichever stream is searched first leaves its value in the shared precondition entry
+			{c04W([]c04Chunk{c04C("a xa")}, []c04Chunk{c04C("b xb")}), `cdata:"(?P<v>[ab])" then cdata:"x@v@"`},
+			// the raw payload (searched first) fails after the precondition matched, the converter output matches
+			{c04WConv([]c04Chunk{c04C("a xb")}, []c04Chunk{c04C("b xb")}), `cdata:"(?P<v>[ab])" then cdata:"x@v@"`},
+			{c04W([]c04Chunk{c04C("a aa")}, []c04Chunk{c04C("b bb")}), `cdata:"(?P<v>[ab]) " then cdata:"@v@@v@"`},
+		},
+		c04FindPrecondNL: {
+			{one(c04C("k\n x\ny")), `cdata:"k(?P<v>[\n.])" then cdata:"x@v@y"`},
+			{one(c04C("k\n"), c04S("x\ny")), `cdata:"k(?P<v>(?s:.))" then sdata:"x@v@y"`},
+			{one(c04C("k. x.y")), `cdata:"k(?P<v>[\n.])" then cdata:"x@v@y"`},
+		},
+		c04FindVarHighByte: {
+			{one(c04C("k\xe9 x\xe9y")), `cdata:"k(?P<v>.)" then cdata:"x@v@y"`},
+			{one(c04C("k\xe9\x80\x80 x\xe9\x80\x80y")), `cdata:"k(?P<v>...)" then cdata:"x@v@y"`},
+			{one(c04C("k\xe9\x80\x80 x\xe9\x80\x80y")), `cdata:"k(?P<v>...)" then -cdata:"x@v@y"`},
+		},
+	}
+}
+
+func TestVerifC04Fixed(t *testing.T) {
+	cases := c04FixedCases()
+	names := []string{c04FindReanchor, c04FindUnmatchedGroup, c04FindPrefixLeak, c04FindPrecondNL, c04FindVarHighByte}
+	vlib.Fixed(t, "C04", names, func(name string) (string, any) {
+		for _, fc := range cases[name] {
+			if msg := c04Manual(fc.w, fc.query); msg != "" {
+				m := fc.w.render().(map[string]any)
+				m["query"] = fc.query
+				return msg, m
+			}
+		}
+		return "", nil
+	})
+}
+
 func TestVerifC04Debug(t *testing.T) {
-	for _, q := range []string{`sdata:"b*" then cdata:"^\z"`, `sdata:"b*" then cdata:"c"`, `sdata:"b*" then cdata:"c*\z"`, `sdata:"b*" then cdata:"c*$"`, `cdata:"c*$"`, `cdata:"\z"`, `sdata:"b*" then cdata:"\z"`, `sdata:"b*" then cdata:"\bc"`, `sdata:"b*" then cdata:"^c*\z"`} {
-		qq, _ := query.Parse(q)
-		t.Log(qq.Conditions.String(), c04Manual(c04W([]c04Chunk{c04C("aaa")}), q))
+	for n, cs := range c04FixedCases() {
+		for _, fc := range cs {
+			t.Logf("%s %s => %s", n, fc.query, c04Manual(fc.w, fc.query))
+		}
 	}
 }
